@@ -13,6 +13,25 @@ HOOK_COMMITS = [
 
 # id -> dict(text, note, technique, design_ref)
 CHECKS = {
+    "C03": dict(
+        text="KvStore.tla is the sequential contract of kvs.Storage (Create/Get/GetMany/Put/PutMany/CasByVersion/Delete/ListKeys/"
+             "non-blocking WaitForVersionChange; versions abstracted to freshness and identity; glob matcher in TLA+). TLC enumerates its "
+             "whole state graph for 2 keys (thorough also 3 keys, 4 value classes, expiry classes) under a VIEW that abstracts version "
+             "numbers, checks the contract's own invariants, and emits one behaviour per edge plus simulated long behaviours; each is "
+             "replayed on a fresh in-memory store and on the Redis client over a fresh miniredis and every reply compared with the "
+             "contract's. Exhaustive for the stated alphabets and all (state, call) pairs; random beyond.",
+        note="Trusted: TLC, the KvStore.tla contract, miniredis as a faithful Redis. Keys have no leading '/'; nil == empty value.",
+        technique="TLA+ sequential contract, TLC state-graph enumeration with behaviour emission, per-edge replay on both backends",
+        design_ref="DESIGN.md section 4, C03"),
+    "C06": dict(
+        text="The same KvStore.tla contract with discrete time: Advance drops every record whose expiration has passed, so the contract "
+             "cannot distinguish 'expired' from 'deleted'. TLC enumerates all states with no/short/longer expirations and up to two "
+             "Advances, so every operation kind occurs as the first one touching an expired key and as one touching a not-yet-expired "
+             "key; every edge is replayed on the in-memory store (real clock, 30 ms ticks, calls at even ticks, expirations at odd ticks, "
+             "stalled runs re-run and never judged) and on Redis/miniredis (FastForward).",
+        note="Trusted: TLC, KvStore.tla, miniredis TTL handling, the host keeping a 30 ms window (otherwise the run is discarded, not judged).",
+        technique="TLA+ timed contract, TLC state-graph enumeration with behaviour emission, per-edge replay on both backends with controlled time",
+        design_ref="DESIGN.md section 4, C06"),
     "C10": dict(
         text="TLC exhausts IterMapImpl - the linked list with sentinel, per-node state, prev/next, iterator reference counts, head, "
              "key index and node pool of map.go, transcribed statement by statement - for 2 keys / 2 iterators / 3 insertions "
